@@ -500,6 +500,8 @@ def h_rundefers(X, ins):
     from .calls import do_call
     for (b, d) in reversed(X.defers):
         if b != X.block and b not in X.cfg['dom'][X.block]:
+            if b not in X.cfg['anc'].get(X.block, ()):
+                continue      # that defer statement is not executed on any path reaching this return
             raise OutOfSubset('conditional defer in ' + X.fnkey)
         dd = dict(d)
         dd['op'] = 'Call'
